@@ -77,6 +77,10 @@ def check_cuts(ctx, tool, P, files, in_damage, cuts=None, model_every=1, dseed=0
             obsn = 'none'
             for k in partial:
                 o = res['out_bytes'].get(paths[k])
+                if o is not None and len(o) != len(files[paths[k]]) and fail is None:
+                    # "no file is damaged on account of the incomplete last entry": whatever is written for the file of the
+                    # incomplete entry is a full-length copy (repaired where the prefix of its track allows), never a truncated one
+                    fail = {'why': 'the output written for %s (incomplete last entry) has %d bytes, the input has %d' % (paths[k], len(o), len(files[paths[k]]))}
                 if o is not None:
                     obsn = 'incomplete-entry output shorter than input' if len(o) < len(files[paths[k]]) else \
                            ('incomplete-entry output = input' if o == open(os.path.join(d, 'in', *paths[k].split('/')), 'rb').read() else 'incomplete-entry output written')
